@@ -22,7 +22,7 @@ META = {
     "technique": "Coq proof by induction over step histories on a discrete model of the failure-tolerance protocol (masked index list, per-block counters, per-factor stored-matrix tokens) + correspondence with the real optimizer under injected fault scripts, evaluated by vm_compute inside coqc; certified checker on the observed run",
     "level_text": "Theorems for every history of step inputs (presence selector per block, routine outcome and factor-matrix finiteness per factor), every tolerance N, frequency, start step and block layout, on the Gallina model of DistributedShampoo.step / _amortized_computation / _raise_exception_if_failure_tolerance_exceeded / compress_preconditioner_list: the failure counter equals the number of consecutive failed refreshes the block took part in, computed from the inputs and the exceptions alone (refinement); the tolerance error for block b is raised iff that number exceeds N; a clean refresh resets it; a failed computation keeps the stored matrix; stored matrices are finite in every reachable state; a raising step writes no parameter; NaN/Inf in a factor matrix or computed matrix of a present block at a refresh makes the step raise and the PreconditionerValueError names the first such factor; the model's own observations satisfy the checker's specification. Both list classes follow the same protocol and share the model. The model is tied to the code by running the real optimizer (Shampoo, SOAP eigh, SOAP QR; 2-4 parameters, some blocked, some with ignored dims) on seeded presence histories x fault scripts x NaN/Inf gradients and comparing every step inside coqc.",
     "level_note": "Trusted: Coq kernel+vm_compute; the hand-written model (checked against the code on the generated histories only); the harness (mock.patch of matrix_inverse_root / matrix_eigenvectors in shampoo_preconditioner_list, parsing of the block/factor named in exception messages, identification of a stored matrix with the routine result it equals bitwise). Matrices are abstracted to tokens: numerical content of roots/eigenvectors is C10-C12's subject. Single process, default Distributor (local blocks = all blocks).",
-    "ready": False,
+    "ready": True,
 }
 
 KINDS = ("shampoo", "soap_eigh", "soap_qr")
@@ -505,8 +505,12 @@ def run(ck: Check) -> None:
         cases = pool.map(make_explicit, explicit, chunksize=32) + pool.map(make_case, seeds, chunksize=4)
         res = eval_cases(ck, "main", [(c["config"], c["nfs"], c["obs"]) for c in cases], per_file=120)
         bad = [(c, r) for c, r in zip(cases, res) if not r[0]]
-        beh_fail = [c for c, r in zip(cases, res) if not r[1]]
-        cnt_fail = [c for c, r in zip(cases, res) if r[1] and not r[2]]
+        # an exception of the right class whose message does not name a known block cannot be judged by the checker
+        # (position unknown): such runs count as disagreements, not as decided violations
+        # the same holds when the routine was not queried in the modelled order (the recorded inputs are then misaligned)
+        unparsed = lambda c: any((o["out"][0] == "other" and o["out"][1].endswith("(unparsed)")) or not o["order_ok"] for o in c["obs"])  # noqa: E731
+        beh_fail = [c for c, r in zip(cases, res) if not r[1] and not unparsed(c)]
+        cnt_fail = [c for c, r in zip(cases, res) if r[1] and not r[2] and not unparsed(c)]
         if beh_fail or cnt_fail:
             which = 1 if beh_fail else 2
             lst = sorted(beh_fail or cnt_fail, key=lambda c: (len(c["nfs"]), len(c["history"])))
@@ -523,7 +527,7 @@ def run(ck: Check) -> None:
         elif bad:
             c0, _ = min(bad, key=lambda cr: len(cr[0]["history"]))
             model = eval_cases(ck, "rep", [(c0["config"], c0["nfs"], c0["obs"])], with_show=True)[0][3]
-            ck.report(None, f"model/implementation correspondence broken on {len(bad)} histories (Failures.agree false) but every observed run passes C13_checkb; first: "
+            ck.report(None, f"model/implementation correspondence broken on {len(bad)} histories (Failures.agree false; {sum(1 for c, _ in bad if unparsed(c))} of them with an unreadable exception message or an unexpected query order) and no observed run is decided to violate C13 by C13_checkb; first: "
                       + describe(c0["config"], c0["history"], c0["obs"], c0["nfs"]) + f" || model: {model}",
                       {"kind": "correspondence", "broken": "Failures.agree (model step vs optimizer.step)", "config": c0["config"], "history": c0["history"],
                        "nfs": c0["nfs"], "observed": c0["obs"], "model": model,
